@@ -34,6 +34,13 @@ RESP = {
     # symbol: (head, body, peer closes after reply)
     "ok_ka": (HEAD_OK, b"hello", False),
     "ok_close": (HEAD_OK_CLOSE, b"hello", True),
+    "ok_10": (b"HTTP/1.0 200 OK\r\n\r\n", b"hello", True),                       # close-delimited body
+    "s204_ka": (b"HTTP/1.1 204 No Content\r\n\r\n", b"", False),
+    # will-close variants of the mid-body faults
+    "short_close": (b"HTTP/1.1 200 OK\r\nConnection: close\r\nContent-Length: 50\r\n\r\n", b"hel", True),
+    "bc_boom": (HEAD_OK_CLOSE, b"hello", True),
+    "bc_reset": (HEAD_OK_CLOSE, b"hello", True),
+    "bc_timeout": (HEAD_OK_CLOSE, b"", False),
     "ok_chunked": (b"HTTP/1.1 200 OK\r\nTransfer-Encoding: chunked\r\n\r\n", b"5\r\nhello\r\n0\r\n\r\n", False),
     # retried status whose back-off fails: unparseable Retry-After / interrupt while sleeping the valid one
     "s503_ra_bad": (b"HTTP/1.1 503 Unavailable\r\nRetry-After: soon\r\nContent-Length: 3\r\n\r\n", b"bad", False),
@@ -56,9 +63,9 @@ NEW_FAULTS = ("n_invalid", "n_boom")                  # raised by the Connection
 CONNECT_FAULTS = ("c_refused", "c_timeout", "c_boom")
 SEND_FAULTS = ("s_epipe", "s_reset", "s_oserr", "s_boom")
 RECV_FAULTS = ("r_reset", "r_ssl", "r_boom")          # raised by the socket at the first receive
-BODY_FAULTS = ("b_boom", "b_reset")                   # raised by the socket at the first body receive
+BODY_FAULTS = ("b_boom", "b_reset", "bc_boom", "bc_reset")                   # raised by the socket at the first body receive
 SLEEP_FAULTS = ("s503_ra_boom",)                      # raised by time.sleep as seen by urllib3.util.retry
-INTERRUPTS = ("n_boom", "c_boom", "s_boom", "r_boom", "b_boom", "s503_ra_boom")
+INTERRUPTS = ("n_boom", "c_boom", "s_boom", "r_boom", "b_boom", "bc_boom", "s503_ra_boom")
 ALL_SYMBOLS = sorted(set(RESP) | set(NEW_FAULTS) | set(CONNECT_FAULTS) | set(SEND_FAULTS) | set(RECV_FAULTS)
                      | {"r_timeout", "r_eof", "r_garbage", "x_stale"})
 DISPOSALS = ("read", "read2rel", "release", "drain", "close", "stream", "read1all", "read1n", "read1cl")
@@ -86,6 +93,8 @@ def make_fault(sym):
         "b_boom": lambda: Interrupt("body"),
         "b_reset": lambda: ConnectionResetError(errno.ECONNRESET, "Connection reset by peer"),
         "s503_ra_boom": lambda: Interrupt("sleep"),
+        "bc_boom": lambda: Interrupt("body"),
+        "bc_reset": lambda: ConnectionResetError(errno.ECONNRESET, "Connection reset by peer"),
     }[sym]()
 
 
@@ -127,7 +136,7 @@ class PSocket(vnet.VSocket):
                 raise p.exc
             if p.sym in RECV_FAULTS:
                 self._script.setdefault("recv", {})[self._nrecv + 1] = p.exc
-            elif p.sym in BODY_FAULTS:
+            elif p.sym in BODY_FAULTS and not net.head_request:
                 self._script.setdefault("recv", {})[self._nrecv + 2] = p.exc
         return super().sendall(data, *flags)
 
@@ -175,6 +184,7 @@ class PNet(vnet.Net):
         self.injected = []         # BaseException objects raised into urllib3 since the last mark
         self.explicit_closed = set()
         self.stalls = 0
+        self.head_request = False
 
     def __enter__(self):
         super().__enter__()
@@ -217,7 +227,9 @@ class PNet(vnet.Net):
         head = head.replace(b"%LOC%", self.loc)
         if vs is not None:
             vs.recv_limit = len(head)      # the head is exactly one receive, the body the next one
-        if sym == "b_timeout":
+        if req.method == "HEAD":          # the headers of the chosen reply, no body
+            return vnet.Reply(head, close=close)
+        if sym in ("b_timeout", "bc_timeout"):
             return vnet.Reply(head, silent=True)
         return vnet.Reply(head + body, close=close)
 
@@ -446,10 +458,11 @@ def run_scenario(sc):
                 if cfg["route"] != "direct":
                     kw["assert_same_host"] = False
                 badarg = st.get("how") == "badarg"
+                pnet.head_request = st.get("how") == "head"
                 if badarg:
                     kw["timeout"] = "bad"      # not a number: fails in _get_timeout, before any checkout
                 try:
-                    r = pool.urlopen("GET", url, **kw)
+                    r = pool.urlopen("HEAD" if pnet.head_request else "GET", url, **kw)
                 except BaseException as ex:  # noqa: B036 - the harness records whatever comes out
                     if isinstance(ex, vnet.HarnessStall):
                         raise
@@ -468,6 +481,7 @@ def run_scenario(sc):
                     _idle(pool, rec, log, resps, will)
                 rec.atts = None
                 pnet.cur = None
+                pnet.head_request = False
                 _cut()
             elif op == "disp":
                 r = resps.pop(st["id"], None)
